@@ -73,7 +73,7 @@ func genCompositeVal(t *rapid.T) Val {
 		}
 		return v
 	case 8, 12, 13, 14:
-		return Val{K: rapid.SampledFrom([]string{"pub", "priv", "emb"}).Draw(t, "structkind"), I: int64(rapid.IntRange(0, 9).Draw(t, "sa")),
+		return Val{K: rapid.SampledFrom([]string{"pub", "priv", "emb", "ponly", "iface"}).Draw(t, "structkind"), I: int64(rapid.IntRange(0, 9).Draw(t, "sa")),
 			S: rapid.SampledFrom(textWords).Draw(t, "sb"), F: float64(rapid.IntRange(0, 5).Draw(t, "sc")), B: rapid.Bool().Draw(t, "sd")}
 	case 9:
 		n := rapid.IntRange(1, 3).Draw(t, "pslen")
@@ -244,6 +244,12 @@ func leafSites(v *Val, where string, depth int) []c05Site {
 		if v.K == "emb" {
 			out = append(out, c05Site{func() { v.B = !v.B }, where + " struct field D", "struct/emb/fieldD"})
 		}
+	case "ponly":
+		out = append(out, c05Site{func() { v.I++ }, where + " comparable struct, pointer field P", "struct/ponly/ptrfield"})
+		out = append(out, c05Site{func() { v.F += 1 }, where + " comparable struct, field N", "struct/ponly/fieldN"})
+	case "iface":
+		out = append(out, c05Site{func() { v.S += "~" }, where + " struct interface field V", "struct/iface/fieldV"})
+		out = append(out, c05Site{func() { v.I++ }, where + " struct field N", "struct/iface/fieldN"})
 	case "pstruct":
 		out = append(out, c05Site{func() { v.I++ }, where + " struct pointer field P", "struct/pstruct/ptrfield"})
 		for i := range v.Elems {
@@ -370,8 +376,11 @@ func runC05(c C05Case) (st Stats, err error) {
 			switch n.Leaf.K {
 			case "priv":
 				hasPriv = true
-			case "slice", "array", "map", "imap", "pub", "emb", "pstruct", "ptr":
+			case "slice", "array", "map", "imap", "pub", "emb", "pstruct", "ptr", "ponly", "iface":
 				hasComposite = true
+				if n.Leaf.K == "ponly" {
+					st.Class("comparable-struct-with-pointer-present")
+				}
 			}
 		}
 	})
@@ -394,6 +403,10 @@ func runC05(c C05Case) (st Stats, err error) {
 		}
 		if e := a2.IsEqual(a1); e != nil {
 			v = violf("equal-pair-rejected", "IsEqual is not symmetric on an equal pair (reverse: %v)\n  tree %s", e, c.A.Brief())
+			return
+		}
+		if e := a1.IsEqual(a1); e != nil {
+			v = violf("self-rejected", "an instance is not IsEqual to itself: %v\n  tree %s", e, c.A.Brief())
 			return
 		}
 		if c.Mut == "none" {
@@ -496,7 +509,7 @@ func init() {
 		Gen: genC05,
 		Run: runC05,
 		Floors: map[string]float64{"equal-only": 0.1, "mut:slice/elem/middle": 0.01, "mut:slice/elem/last": 0.01, "mut:map/value/last": 0.005, "mut:map/key-changed": 0.01,
-			"private-field-struct-present": 0.02, "mut:stack/swap": 0.003, "mut:cond/operator": 0.01, "mut:stack/kind": 0.01, "mut:ptr/depth3/nested": 0.002, "mut:struct/priv/fieldB": 0.001},
+			"private-field-struct-present": 0.02, "mut:stack/swap": 0.003, "mut:cond/operator": 0.01, "mut:stack/kind": 0.01, "mut:ptr/depth3/nested": 0.002, "mut:struct/priv/fieldB": 0.001, "comparable-struct-with-pointer-present": 0.01},
 		Assumptions: []string{"NaN, typed-nil pointers, containers nested in containers, functions and channels are not generated (outside the statement)",
 			"unexported struct fields are never mutated (documented as ignored); slices are built with cap==len (capacity is part of the documented slice comparison)"},
 	})
